@@ -314,3 +314,73 @@ func ZZH_C16_chain_cascade() {
 		zz.Assert("C16.cascade.logged-out-is-final", svc().Status == governance.GovernanceForbidden)
 	}
 }
+
+// ZZH_C16_unpause_appchain: the rule manager ends a master-rule update and calls the real
+// AppchainManager.UnPauseAppchain with the status the chain had before the update: available (the
+// chain was paused for the update) or frozen (a frozen chain's rule was updated; the chain stays
+// frozen). The chain's service was paused by the earlier cascade. Afterwards the service is usable
+// only if the chain is available again.
+func ZZH_C16_unpause_appchain() {
+	w, cs := zzFullWorld()
+	w.audit = zz.Choice("audit", 2) == 1
+	zzPutGovAdmins(w, 4)
+	var cst, last governance.GovernanceStatus
+	if zz.Choice("chainWas", 2) == 0 {
+		cst, last = governance.GovernanceFrozen, governance.GovernanceAvailable // (pausing an appchain = freezing it)
+	} else {
+		cst, last = governance.GovernanceFrozen, governance.GovernanceFrozen
+	}
+	w.putObj(zzAppchainAddr, appchainMgr.AppchainKey("chA"), appchainMgr.Appchain{ID: "chA", ChainName: "chA", ChainType: "fabric", Status: cst})
+	id := "chA:s7"
+	w.putObj(zzServiceAddr, service_mgr.ServiceKey(id), service_mgr.Service{ChainID: "chA", ServiceID: "s7", Name: "s7", Type: service_mgr.ServiceCallContract,
+		Ordered: true, Permission: map[string]struct{}{}, Status: governance.GovernancePause})
+	list := orderedmap.New()
+	list.Set(id, struct{}{})
+	w.putObj(zzServiceAddr, service_mgr.AppchainServicesKey("chA"), list)
+	_, err := zzInvoke(w, cs[zzAppchainAddr], zzAppchainAddr, zzRuleAddr, "UnPauseAppchain", []*pb.Arg{pb.String("chA"), pb.String(string(last))})
+	zz.Assert("C16.unpause.concludes", err == nil)
+	chain := &appchainMgr.Appchain{}
+	w.getObj(zzAppchainAddr, appchainMgr.AppchainKey("chA"), chain)
+	svc := &service_mgr.Service{}
+	w.getObj(zzServiceAddr, service_mgr.ServiceKey(id), svc)
+	zz.Assert("C16.unpause.chain-status", chain.Status == last)
+	zz.Assert("C16.unpause.service-usable-only-under-available-chain", !svc.IsAvailable() || chain.IsAvailable())
+	zz.Cover("C16.unpause.service-back", svc.IsAvailable())
+}
+
+// ZZH_C16_logout_rejected: an appchain that is frozen (its services paused by the freeze) asks to
+// log out through the real LogoutAppchain and the proposal is REJECTED: the chain goes back to
+// frozen, so its services must stay unusable.
+func ZZH_C16_logout_rejected() {
+	w, cs := zzFullWorld()
+	w.audit = zz.Choice("audit", 2) == 1
+	zzPutGovAdmins(w, 4)
+	zzPutChainAdmin(w, "chA", zzChainAdminA)
+	w.putObj(zzAppchainAddr, appchainMgr.AppAdminsChainKey("chA"), []string{zzChainAdminA})
+	w.putObj(zzAppchainAddr, appchainMgr.AppchainAdminKey(zzChainAdminA), "chA")
+	pre := []governance.GovernanceStatus{governance.GovernanceAvailable, governance.GovernanceFrozen}[zz.Choice("chainStatus", 2)]
+	w.putObj(zzAppchainAddr, appchainMgr.AppchainKey("chA"), appchainMgr.Appchain{ID: "chA", ChainName: "chA", ChainType: "fabric", Status: pre})
+	w.putObj(zzRuleAddr, ruleMgr.RuleKey("chA"), []*ruleMgr.Rule{{Address: "0xM000000000000000000000000000000000000001", ChainID: "chA", Master: true, Status: governance.GovernanceAvailable}})
+	id := "chA:s7"
+	sst := governance.GovernanceAvailable
+	if pre == governance.GovernanceFrozen {
+		sst = governance.GovernancePause // paused by the freeze cascade
+	}
+	w.putObj(zzServiceAddr, service_mgr.ServiceKey(id), service_mgr.Service{ChainID: "chA", ServiceID: "s7", Name: "s7", Type: service_mgr.ServiceCallContract,
+		Ordered: true, Permission: map[string]struct{}{}, Status: sst})
+	list := orderedmap.New()
+	list.Set(id, struct{}{})
+	w.putObj(zzServiceAddr, service_mgr.AppchainServicesKey("chA"), list)
+	w.caller = zzChainAdminA
+	_, serr := zzInvoke(w, cs[zzAppchainAddr], zzAppchainAddr, zzChainAdminA, "LogoutAppchain", []*pb.Arg{pb.String("chA"), pb.String("reason")})
+	zz.Assert("C16.logout-rejected.submitted", serr == nil)
+	_, err := zzInvoke(w, cs[zzAppchainAddr], zzAppchainAddr, zzGovAddr, "Manage",
+		[]*pb.Arg{pb.String(string(governance.EventLogout)), pb.String(string(REJECTED)), pb.String(string(pre)), pb.String("chA"), pb.Bytes(nil)})
+	zz.Assert("C16.logout-rejected.concludes", err == nil)
+	chain := &appchainMgr.Appchain{}
+	w.getObj(zzAppchainAddr, appchainMgr.AppchainKey("chA"), chain)
+	svc := &service_mgr.Service{}
+	w.getObj(zzServiceAddr, service_mgr.ServiceKey(id), svc)
+	zz.Assert("C16.logout-rejected.chain-back", chain.Status == pre)
+	zz.Assert("C16.logout-rejected.service-usable-only-under-available-chain", !svc.IsAvailable() || chain.IsAvailable())
+}
